@@ -436,12 +436,15 @@ class TRSpec(object):
     def c_should_sample(self, ex, st, args, kw, node, star, dstar):
         """ghost only: remember the inputs of the sampling decision, then execute the real body (inlined, no contract assumed)"""
         st.g['decision'] = (truthy(args[3]), num(st.rd(args[2], 'sampling_rate')))
-        # C09 (a failure inside the framework leaves the recorder idle): the per-run state is already reset when the decision is taken
-        cnt_ = st.rd(args[0], '_invoke_counter')
-        st.g['idle_at_decision'] = z3.And(st.rd(args[0], '_active_recording') == NONE, st.rd(args[0], '_active_recording_parameters') == NONE,
-                                          st.rd(args[0], '_force_sample') == B(False), st.g['ddom'][Val.addr(cnt_)] == z3.K(Val, False))
+        outs = []
+        if getattr(self, 'inject_decision_failure', False):
+            # C09 quantifies over "a failure inside the framework": the decision itself fails (a rate it cannot compare, a failing log call).
+            # Injected only in the unit that states the idle postcondition for that fault; no other clause is claimed on such a path.
+            s2 = st.copy(); e = s2.exc_obj('TypeError'); s2.g['decision_failed'] = True
+            s2.assume(z3.Not(truthy(args[3])))          # a forced sample is kept without looking at the rate
+            outs.append((s2, ('exc', e)))
         n_, kind, dc = self.repo.method('TapeRecorder', '_should_sample_active_recording')
-        return call_function(ex, st, n_, self.repo.classes[dc][0], dc, None, args, kw, '_should_sample_active_recording', star, dstar)
+        return outs + call_function(ex, st, n_, self.repo.classes[dc][0], dc, None, args, kw, '_should_sample_active_recording', star, dstar)
 
     # ---- callee contracts
     def c_input_key(self, ex, st, args, kw, node, star, dstar):
